@@ -9,6 +9,8 @@ ap = argparse.ArgumentParser()
 ap.add_argument("-k", default="")
 ap.add_argument("--tier", default="quick")
 ap.add_argument("--patch-dir", default=None, help="also run the seeded/<id>/patch.diff changes")
+ap.add_argument("--workers", type=int, default=1, help="mutants run in parallel (each check then gets 16/workers jobs)")
+ap.add_argument("--save", action="store_true", help="merge the verdicts into selftest/results.json")
 a = ap.parse_args()
 muts = json.load(open(os.path.join(VERIF, "selftest", "mutants.json")))
 seeded_dir = os.path.join(VERIF, "seeded")
@@ -20,15 +22,27 @@ if os.path.isdir(seeded_dir):
             muts.append({"id": "seeded/" + d, "property": m["property"], "patch": os.path.join(seeded_dir, d, "patch.diff"),
                          "expect": m.get("expect", "")})
 res = []
-for m in muts:
-    if a.k and a.k not in m["id"]:
-        continue
+detail = {}
+import threading
+
+GITLOCK = threading.Lock()
+
+
+def one(m):
+    out = []
+    _print = lambda *x: out.append(" ".join(str(y) for y in x))
+    r = _one(m, _print)
+    return m["id"], r, out
+
+
+def _one(m, print):
     d = tempfile.mkdtemp(prefix="vfm.", dir="/tmp")
     s = tempfile.mkdtemp(prefix="vfs.", dir="/tmp")
     os.rmdir(d)
     t0 = time.time()
     try:
-        subprocess.run(["git", "-C", "/repo", "worktree", "add", "--detach", d, "HEAD"], check=True, capture_output=True)
+        with GITLOCK:
+            subprocess.run(["git", "-C", "/repo", "worktree", "add", "--detach", d, "HEAD"], check=True, capture_output=True)
         if os.path.exists("/repo/spsdk/__version__.py"):  # generated, untracked file of the real tree
             shutil.copy("/repo/spsdk/__version__.py", os.path.join(d, "spsdk", "__version__.py"))
         if "patch" in m:
@@ -38,14 +52,13 @@ for m in muts:
             src = open(p).read()
             if src.count(m["old"]) != 1:
                 print(f"{m['id']}: pattern occurs {src.count(m['old'])} times - SKIPPED")
-                res.append((m["id"], "bad-pattern"))
-                continue
+                return {"verdict": "bad-pattern"}
             src = src.replace(m["old"], m["new"])
             if "also" in m:
                 assert src.count(m["also"]["old2"]) == 1
                 src = src.replace(m["also"]["old2"], m["also"]["new2"])
             open(p, "w").write(src)
-        env = dict(os.environ, VF_REPO=d, VF_SCRATCH_OUT=s)
+        env = dict(os.environ, VF_REPO=d, VF_SCRATCH_OUT=s, VF_JOBS=str(max(4, 16 // a.workers)))
         props = m["property"] if isinstance(m["property"], list) else [m["property"]]
         verdicts = []
         for pid in props:
@@ -59,11 +72,27 @@ for m in muts:
             print(f"    {pid}: exit={rc}")
             for l in lines:
                 print("      " + l.replace(d, "<repo>").replace(s, "<scratch>")[:220])
-        res.append((m["id"], "killed" if ok else "missed"))
+        return {"verdict": "killed" if ok else "missed", "property": m["property"], "secs": round(time.time() - t0),
+                "checks": [{"property": pid, "exit": rc, "lines": [l.replace(d, "<repo>").replace(s, "<scratch>")[:300] for l in lines]}
+                           for pid, rc, hit, lines in verdicts]}
     finally:
-        subprocess.run(["git", "-C", "/repo", "worktree", "remove", "--force", d], capture_output=True)
+        with GITLOCK:
+            subprocess.run(["git", "-C", "/repo", "worktree", "remove", "--force", d], capture_output=True)
         shutil.rmtree(d, ignore_errors=True)
         shutil.rmtree(s, ignore_errors=True)
+from concurrent.futures import ThreadPoolExecutor
+
+todo = [m for m in muts if not a.k or a.k in m["id"]]
+with ThreadPoolExecutor(max_workers=a.workers) as ex:
+    for mid, r, out in ex.map(one, todo):
+        print("\n".join(out), flush=True)
+        res.append((mid, r["verdict"]))
+        detail[mid] = r
+if a.save:
+    rp = os.path.join(VERIF, "selftest", "results.json")
+    old = json.load(open(rp)) if os.path.exists(rp) else {}
+    old.update(detail)
+    json.dump(old, open(rp, "w"), indent=1, sort_keys=True)
 k = sum(1 for _, v in res if v == "killed")
 print(f"mutants killed {k}/{len(res)}")
 sys.exit(0 if k == len(res) else 1)
